@@ -83,7 +83,7 @@ Section Strptime.
     flat_map (fun '(d, s3) => flat_map (fun s3' =>
     flat_map (fun '(h, s4) => flat_map (fun s4' =>
     flat_map (fun '(mi, s5) => flat_map (fun s5' =>
-    flat_map (fun '(sec, s6) => map (fun s6' => (mkdt y mo d h mi sec, s6'))
+    flat_map (fun '(sec, s6) => flat_map (fun s6' => [(mkdt y mo d h mi sec, s6')])
       (match_lit 90 s6)) (match_alts pat_S s5'))
       (match_lit 58 s5)) (match_alts pat_M s4'))
       (match_lit 58 s4)) (match_alts pat_H s3'))
